@@ -385,6 +385,12 @@ Definition funding_depth (s : state) : N := depth_of s (funding_height s).
 Definition double_spent_depth (s : state) : N := depth_of s (dsh s).
 Definition closing_depth (s : state) : N :=
   depth_of s (match unilateral_h s with Some h => Some h | None => mutual_h s end).
+(** ChainMonitorBase::as_chain_state, the view handed to the validators: current_height,
+    funding_depth, funding_double_spent_depth, closing_depth (mutual close first, then
+    unilateral) *)
+Definition chain_state (s : state) : N * N * N * N :=
+  (height s, depth_of s (funding_height s), depth_of s (dsh s),
+   depth_of s (match mutual_h s with Some h => Some h | None => unilateral_h s end)).
 Definition MIN_DEPTH : N := 100.
 Definition deep (s : state) (forgot : bool) (oh : option N) : bool :=
   (MIN_DEPTH <=? depth_of s oh) && forgot.
